@@ -1,0 +1,14 @@
+//go:build verif
+
+// Contracts for package wstrings, checked by /verif. Comments only.
+package wstrings
+
+// C15: Safe accepts exactly the strings made of letters, digits, '_' and '-'.
+// safeFrom follows the string rune by rune (UTF-8 decoding summarised by
+// runeat/runelen, exact for ASCII); it is unfolded once at each use.
+//@ spec okrune(r rune) bool = unicode_IsLetter(r) || unicode_IsDigit(r) || r == '_' || r == '-'
+//@ spec rec safeFrom(s string, i int) bool = i >= len(s) || (okrune(runeat(s, i)) && safeFrom(s, i + runelen(s, i)))
+//@ func Safe props=C15
+//@   ensures [nil-iff-safe] result == nil <==> safeFrom(s, 0)
+//@   loop#0 invariant 0 <= rangepos && rangepos <= len(s)
+//@   loop#0 invariant safeFrom(s, 0) <==> safeFrom(s, rangepos)
